@@ -84,6 +84,8 @@ F_Leaves ==
     [] Family = "alloc"  -> Ints({0, 1, 3}) \cup {Mem("I"), Mem("J"), Mem("Xs")}
     [] Family = "order"  -> Ints({0, 1, 2}) \cup {Mem("Xs"), Mem("I"), Mem("F"), Mem("S"), Mem("I64")}
     [] Family = "laws"   -> Ints({0, 1, 2, 3}) \cup {Neg1, Mem("Xs"), Mem("Ys"), Mem("I"), Mem("J"), Mem("S"), Mem("Os"), Mem("Anys")}
+    [] Family = "ovl"    -> Ints({1, 2}) \cup {L(NFloat("0.5", 1, 1), "float64"), Mem("B"), Mem("I"), Mem("J"), Mem("F"), Mem("Any"), Mem("Xs"), Mem("Anys"), Mem("S"), Mem("I64")}
+    [] Family = "ovlb"   -> Ints({1}) \cup {Mem("B"), Mem("I"), Mem("Xs")}   \* `+` in branches, bounds and sliced operands
     [] Family = "promo"  -> {Mem(m) : m \in {"I", "I8", "I16", "I32", "I64", "U", "U8", "U16", "U32", "U64", "F32", "F"}}
     [] Family = "oversize" -> Ints({7}) \cup {BigB, BigI, Mem("B"), Mem("I"), Mem("Xs"), Mem("P")}
 
@@ -105,6 +107,8 @@ F_BinOps ==
     [] Family = "alloc"  -> {"..", "+"}
     [] Family = "order"  -> {"in", "not in", ".."}
     [] Family = "laws"   -> {">", "==", "%", "/", "and", "in", ".."}
+    [] Family = "ovl"    -> {"+", "*", "==", ">"}
+    [] Family = "ovlb"   -> {"+"}
     [] Family = "promo"  -> {"+", "-", "*", "/", "%"} \cup CmpOps
     [] Family = "oversize" -> {"and", "or", "==", "+"}
 
@@ -128,6 +132,7 @@ F_Funcs ==
     [] Family = "builtin" -> {"Id", "IsPos", "Sum"}
     [] Family = "mixed"  -> {"Id", "Add", "Half"}
     [] Family = "order"  -> {"Id", "Twice"}
+    [] Family = "ovl"    -> {"Id", "Half"}
     [] OTHER -> {}
 
 F_Builtins ==
@@ -136,17 +141,18 @@ F_Builtins ==
     [] Family = "alloc" -> {"map", "filter", "count"}
     [] Family = "oversize" -> {"all", "filter", "map", "count"}
     [] Family = "laws" -> {"all", "any"}
+    [] Family = "ovl" -> {"map", "filter", "all"}
     [] OTHER -> {}
 
 F_UseLen  == Family \in {"string", "coll", "builtin", "mixed", "alloc", "oversize"}
-F_UseCond == Family \in {"logic", "mixed", "builtin", "oversize"}
-F_UseIdx  == Family \in {"coll", "access", "string", "mixed", "builtin"}
+F_UseCond == Family \in {"logic", "mixed", "builtin", "oversize", "ovl", "ovlb"}
+F_UseIdx  == Family \in {"coll", "access", "string", "mixed", "builtin", "ovl"}
 F_SliceShapes == CASE Family \in {"coll", "string"} -> {"ft", "f", "t", "n"} [] Family = "mixed" -> {"f", "ft"}
-                   [] Family = "laws" -> {"f"}
+                   [] Family = "laws" -> {"f"} [] Family = "ovl" -> {"f"} [] Family = "ovlb" -> {"f", "t"}
                    [] Family = "order" -> {"ft", "f", "t"} [] OTHER -> {}
-F_ArrLens == CASE Family \in {"coll", "mixed", "alloc"} -> {0, 1, 2} [] Family = "builtin" -> {2} [] OTHER -> {}
-F_MapLens == CASE Family = "coll" -> {0, 1, 2} [] Family \in {"mixed", "alloc"} -> {1} [] OTHER -> {}
-F_ElemLeaves == Family \in {"builtin", "mixed", "alloc", "oversize", "laws"}
+F_ArrLens == CASE Family \in {"coll", "mixed", "alloc"} -> {0, 1, 2} [] Family \in {"ovl", "ovlb"} -> {1} [] Family = "builtin" -> {2} [] OTHER -> {}
+F_MapLens == CASE Family = "coll" -> {0, 1, 2} [] Family \in {"mixed", "alloc", "ovl"} -> {1} [] OTHER -> {}
+F_ElemLeaves == Family \in {"builtin", "mixed", "alloc", "oversize", "laws", "ovl"}
 F_OrderGuard == Family # "order"
 
 (* Constructs whose outcome on the pinned tree is a catalogued deviation     *)
@@ -241,6 +247,15 @@ LawsHold == Complete =>
      (r.exp.ok /\ r.exp2.ok) => r.exp.v = r.exp2.v
 
 EmitLaws == (Complete /\ EmitMode = "laws") => \A lw \in LawPairs(Tree) : PrintT(ToJson(LawCase(lw)))
+
+(* C17: with `+` mapped to Add, compiling Src(Tree) must behave as the tree  *)
+(* in which every int + int is the call Add(l, r) (Types!Overload): the call  *)
+(* log shows each Add with its operands in order.                             *)
+OvlTree == Overload(Tree, "")
+OvlCase == [src |-> Src(Tree), osrc |-> Src(OvlTree), n |-> n, overloaded |-> OvlTree # Tree,
+            cdz |-> HasConstDivZero(OvlTree), cbp |-> FALSE, runs |-> Runs(OvlTree)]
+OvlTyped == Complete => TypeOf(Tree, "") = TreeTy
+EmitOvl == (Complete /\ EmitMode = "ovl") => PrintT(ToJson(OvlCase))
 
 (* C10: the traversal the documentation promises for the parser's tree of    *)
 (* Src(Tree), and the text whose compilation the patching visitor must equal *)
